@@ -74,10 +74,10 @@ PROPS["C08"] = dict(
                  "Tie/Answers.v", "Tie/Graph.v", "Props/C08.v"],
     proof_targets=["Props/C08.vo", "Witness/OldD1.vo"],
     props_module="Props.C08",
-    theorems=["C08_code_has_the_protocol_shapes", "C08_no_deadlock", "C08_released_by_own_token",
+    theorems=["C08_code_has_the_protocol_shapes", "C08_code_senders_never_block", "C08_no_deadlock", "C08_released_by_own_token",
               "C08_sort_terminates", "C08_sort_exact_and_duplicate_free",
               "C08_code_marks_before_recursing", "C08_old_visit_diverges"],
-    engines=[("answers", ["--parts", "shapes,conc"])],
+    engines=[("answers", ["--parts", "shapes,flood,conc"])],
     thorough_features=[["parking_lot"]],
     disagreement_is_violation=True,
     rule="answers: (B) every digraph of get_cached look-ups on <=2 (quick) / <=3 (thorough) TNode assets "
